@@ -33,6 +33,7 @@ def main():
     suites = load_suites()
     if suite not in suites:
         print("unknown suite", suite, file=sys.stderr); sys.exit(2)
+    genlib.RERUN.update({"suite": suite, "seed": seed, "n": n})
     suites[suite](genlib.Rng(seed), n)
 
 
